@@ -3,6 +3,6 @@
 From Coq Require Extraction.
 From Coq Require Import ExtrOcamlBasic.
 From DV Require Import Prelude Cost Grid Dtw DtwSpec Bounds Traceback Matrix NW Search Cluster ClusterPart PyDist PyWps KBest RelaxedEndSpec CFillTrace CLang.
-From DVGen Require Import Gen_matrix Gen_cdist Gen_ced Gen_pydist Gen_pywps Gen_cwps Gen_cwpsk.
+From DVGen Require Import Gen_matrix Gen_cdist Gen_ced Gen_pydist Gen_pywps Gen_cwps Gen_cwpsk Gen_cexpw.
 Extraction Language OCaml.
-Extraction "model.ml" dtw_model wps_matrix ed_model lb_keogh_model best_path_model adj_penalty pairs gen_length py_distance_array_index NM tbo search fit_model dist_model distp_model wps_code_model kbest clusters_model warping_path_model marks_model c_compact_model c_dtw_distance c_dtw_distance_ndim c_dtw_distance_euclidean c_dtw_distance_ndim_euclidean c_euclidean_distance_squared c_euclidean_distance_euclidean c_euclidean_distance_ndim_squared c_euclidean_distance_ndim_euclidean py_distance py_wps_fill c_dtw_warping_paths_ndim c_dtw_warping_paths_ndim_euclidean c_parts_ldiff c_parts_ldiffr c_parts_ldiffc c_parts_window c_parts_width c_parts_overlap_left c_parts_overlap_right c_parts_ri1 c_parts_ri2 c_parts_ri3 c_wps_shift adj_max_step eff_window pdist.
+Extraction "model.ml" dtw_model wps_matrix ed_model lb_keogh_model best_path_model adj_penalty pairs gen_length py_distance_array_index NM tbo search fit_model dist_model distp_model wps_code_model kbest clusters_model warping_path_model marks_model c_compact_model c_dtw_distance c_dtw_distance_ndim c_dtw_distance_euclidean c_dtw_distance_ndim_euclidean c_euclidean_distance_squared c_euclidean_distance_euclidean c_euclidean_distance_ndim_squared c_euclidean_distance_ndim_euclidean py_distance py_wps_fill c_dtw_warping_paths_ndim c_dtw_warping_paths_ndim_euclidean c_dtw_expand_wps_slice c_parts_ldiff c_parts_ldiffr c_parts_ldiffc c_parts_window c_parts_width c_parts_overlap_left c_parts_overlap_right c_parts_ri1 c_parts_ri2 c_parts_ri3 c_wps_shift adj_max_step eff_window pdist.
